@@ -38,6 +38,17 @@ inductive LabelEnc (m : Nat) (s : Bits) : LabelKind → Bits → Prop where
   | same (v : Bool) : s = List.replicate s.length v → s.length ≤ m →
       LabelEnc m s .same (true :: true :: v :: natToBits (lenBits m) s.length)
 
+/-- `LabelBits m s k bits`: the bit pattern of the `HmLabel` constructor `k` for the label `s` under bound `m` WITHOUT the side
+condition `{n <= m}` (the `#<= m` length field of hml_long / hml_same only has to be wide enough to hold `|s|`).
+`LabelEnc m s k bits ↔ LabelBits m s k bits ∧ |s| ≤ m` (`Proofs/Hashmap.lean: labelEnc_iff_bits`); the patterns with
+`|s| > m` are what a conforming parser must refuse. -/
+inductive LabelBits (m : Nat) (s : Bits) : LabelKind → Bits → Prop where
+  | short : LabelBits m s .short (false :: (List.replicate s.length true ++ false :: s))
+  | long : s.length < 2 ^ lenBits m →
+      LabelBits m s .long (true :: false :: (natToBits (lenBits m) s.length ++ s))
+  | same (v : Bool) : s = List.replicate s.length v → s.length < 2 ^ lenBits m →
+      LabelBits m s .same (true :: true :: v :: natToBits (lenBits m) s.length)
+
 /-- encoded size in bits of a label of length `len` under bound `max` -/
 def encLen (k : LabelKind) (len max : Nat) : Nat :=
   match k with
